@@ -22,7 +22,40 @@ Open Scope N_scope.
     start/batch/end calls into requests: a fresh sync id per run, start header on the first batch of a run);
     the sink call succeeds iff the answer is 200. *)
 Inductive devent := DEv (e : event) | DExpireAll | DNop | DPause | DExpireOld | DJobPageFail (n : N) (ents : list ent)
-                  | DSinkHttp (e : event).
+                  | DSinkHttp (e : event) | DCancelledEnd (e : event).
+
+(** [DCancelledEnd e]: the end request / end call [e] arrives with an already cancelled context (the client of the
+    end request is gone, the job was killed after its last page): CompleteFullSync returns the context error at the
+    first entity it looks at - nothing is tombstoned - and its deferred reset drops the sync. *)
+Definition abandon (s : state) : state := mkState (dat s) false 0 false (timers s) [] None.
+
+Definition cancelled_end (v : variant) (e : event) (s : state) : resp * state :=
+  match e with
+  | EHttp start id _ ents =>
+      let (r, s2) := http v start id false ents s in
+      match r with
+      | RConflict => (RConflict, s)
+      | _ => if lease s2 then (RFail, abandon (release s2)) else (RGone, s2)
+      end
+  | EJobEnd n =>
+      match v with
+      | Current => (RJobErr, abandon s)
+      | Fixed => if started s && owner_eqb (own s) n then (RJobErr, abandon s) else (RJobErr, s)
+      end
+  | _ => step v e s
+  end.
+
+Definition scancelled_end (e : event) (g : spec) : resp * spec :=
+  match e with
+  | EHttp start id _ ents =>
+      let (r, g2) := sstep (EHttp start id false ents) g in
+      match r with
+      | RConflict => (RConflict, g)
+      | _ => if is_ghttp (g_active g2) then (RFail, mkSpec None [] (g_data g2)) else (RGone, g2)
+      end
+  | EJobEnd n => if is_gjob (g_active g) n then (RJobErr, mkSpec None [] (g_data g)) else (RJobErr, g)
+  | _ => sstep e g
+  end.
 
 Definition sink_resp (r : resp) : resp := match r with ROk => ROk | _ => RJobErr end.
 
@@ -40,7 +73,7 @@ Record tcase := mkCase {
 }.
 
 Definition resp_code (r : resp) : N :=
-  match r with ROk => 0 | RConflict => 1 | RGone => 2 | RJobErr => 6 | RNone => 0 end.
+  match r with ROk => 0 | RConflict => 1 | RGone => 2 | RJobErr => 6 | RNone => 0 | RFail => 4 end.
 
 Fixpoint insert_sorted (p : N * (N * bool)) (v : view) : view :=
   match v with
@@ -64,6 +97,7 @@ Definition dstep (v : variant) (e : devent) (s : state) : resp * state :=
   | DExpireOld => (RNone, expire_old s)
   | DJobPageFail n ents => (RJobErr, snd (step v (EJobBatch n ents) s))
   | DSinkHttp e => let (r, s1) := step v e s in (sink_resp r, s1)
+  | DCancelledEnd e => cancelled_end v e s
   end.
 
 Fixpoint predict_from (v : variant) (h : list devent) (s : state) : list ostep :=
@@ -95,6 +129,8 @@ Definition dsstep (e : devent) (gf : dspec) : resp * dspec :=
   | DExpireOld => if f then (RNone, gf) else let (r, g1) := sstep EExpire g in (r, (g1, f))
   | DJobPageFail n ents => (RJobErr, (snd (sstep (EJobBatch n ents) g), f))
   | DSinkHttp e => let (r, g1) := sstep e g in (sink_resp r, (g1, f || refreshes (g_active g) e))
+  | DCancelledEnd e => let (r, g1) := scancelled_end e g in
+                       (r, (g1, match r with RConflict => f | _ => f || refreshes (g_active g) e end))
   end.
 
 Definition is_some {A} (o : option A) : bool := match o with Some _ => true | None => false end.
